@@ -196,6 +196,7 @@ class Facts:
         self.config = config
         self.spans = self.j["spans"]
         self.bodies = [Body(self, b) for b in self.j["bodies"]]
+        self.by_raw = {b.path: b for b in self.bodies}
         self.by_path = {}
         for b in self.bodies:
             self.by_path.setdefault(strip_generics(b.path), []).append(b)
@@ -213,6 +214,10 @@ class Facts:
         if not cands:
             return None
         raise KeyError("ambiguous body %s: %s" % (path, [c.path for c in cands]))
+
+    def closure(self, raw_path):
+        """Body of a closure named by its raw def path (as found in closure terms)."""
+        return self.by_raw.get(raw_path)
 
     def bodies_matching(self, regex):
         r = re.compile(regex)
